@@ -65,7 +65,10 @@ Definition mig_model (c : World.world * (str + (str * cfgdata)) * store * list b
         return [dict(classes=[K(0, 'A', params=[P('x')]), K(1, 'B', group='g', meta_inputs=[{'cls': 0}]),
                               K(2, 'C', meta_inputs=[{'cls': 1}]), K(3, 'M', data='memory')],
                      files={'cfg/main.json': {'tasks': ['@M.*'], 'x': 1}}, base={'file': 'cfg/main.json'}, context=None,
-                     compute=[1], drys=[True, False, False])]
+                     compute=[1], drys=[True, False, False]),
+                dict(classes=[K(0, 'A', params=[P('x')]), K(1, 'B', group='g', meta_inputs=[{'cls': 0}])],
+                     files={'cfg/main.json': {'tasks': ['@M.*'], 'x': 1}}, base={'file': 'cfg/main.json'}, context=None,
+                     compute=[0, 1], drys=[True, True, False], verbose=False)]
 
     def gen(self, rng, tier):
         from ..gen_pipeline import gen_case
@@ -75,6 +78,7 @@ Definition mig_model (c : World.world * (str + (str * cfgdata)) * store * list b
             if 'file' not in c['base']:
                 continue
             c['compute'] = [rng.randrange(64) for _ in range(rng.choice([0, 1, 2, 3, 5]))]
+            c['verbose'] = rng.random() < 0.6
             c['drys'] = rng.choice([[False], [True], [True, False], [False, False], [True, False, False]])
             out.append(c)
         return out
@@ -103,7 +107,7 @@ Definition mig_model (c : World.world * (str + (str * cfgdata)) * store * list b
                 buf = io.StringIO()
                 try:
                     with contextlib.redirect_stdout(buf):
-                        migrate_to_parameter_mode(cfg, Path('target'), dry=dry)
+                        migrate_to_parameter_mode(cfg, Path('target'), dry=dry, verbose=case.get('verbose', True))
                     steps.append(dict(src=tree('data'), dst=tree('target')))
                 except (KeyError, AssertionError, ValueError, RecursionError, FileNotFoundError) as e:
                     steps.append(dict(error=type(e).__name__))
